@@ -1,9 +1,24 @@
 package main
 
-// thorough.go — extra work of the thorough tier shared by all properties.
+// thorough.go — extra work of the thorough tier shared by all properties:
+//  * the tree is re-loaded under other GOARCH/GOOS configurations (no build-tagged source may escape the rules);
+//  * mutation self-test ("firing" half): every patch kept under selfmut/<id>/ and every seeded change recorded as detected by
+//    this property is applied to a scratch copy of /repo's working tree (outside /repo and /verif, removed at once) and the
+//    check, run as a separate process on the copy, must report a violation. Patches that no longer apply to the working tree
+//    are counted as skipped.
+
+import (
+	"encoding/json"
+	"fmt"
+	"os"
+	"os/exec"
+	"path/filepath"
+	"sort"
+	"strings"
+	"sync"
+)
 
 func thoroughCommon(p *Prog, r *Report, d *propDef) {
-	// re-load under other GOARCH/GOOS: type errors or a smaller package set make the run undecided.
 	for _, env := range [][]string{{"GOARCH=386"}, {"GOOS=windows"}, {"GOOS=darwin"}, {"GOOS=js", "GOARCH=wasm"}} {
 		q := Load(LoadOpts{Dir: p.Dir, Patterns: []string{"./..."}, ModPath: p.ModPath, MinPkgs: 13, NoSSA: true, Env: env})
 		if q.GoFiles != p.GoFiles {
@@ -11,4 +26,129 @@ func thoroughCommon(p *Prog, r *Report, d *propDef) {
 		}
 		r.Count("configurations_rechecked", 1)
 	}
+	if os.Getenv("VSA_NO_SELFMUT") != "" {
+		return
+	}
+	selfMutation(p, r, d)
+}
+
+func selfMutation(p *Prog, r *Report, d *propDef) {
+	dir := verifDir()
+	var patches []string
+	m, _ := filepath.Glob(filepath.Join(dir, "selfmut", d.id, "*.diff"))
+	patches = append(patches, m...)
+	metas, _ := filepath.Glob(filepath.Join(dir, "seeded", "*", "meta.json"))
+	for _, mf := range metas {
+		b, err := os.ReadFile(mf)
+		if err != nil {
+			continue
+		}
+		var meta struct {
+			DetectedBy []string `json:"detected_by"`
+		}
+		if json.Unmarshal(b, &meta) != nil {
+			continue
+		}
+		for _, by := range meta.DetectedBy {
+			if strings.HasPrefix(by, d.id+":") {
+				patches = append(patches, filepath.Join(filepath.Dir(mf), "patch.diff"))
+				break
+			}
+		}
+	}
+	sort.Strings(patches)
+	self, err := os.Executable()
+	if err != nil {
+		undecided("cannot locate own executable: %v", err)
+	}
+	var results []string
+	fired, skipped := 0, 0
+	var mu sync.Mutex
+	sem := make(chan struct{}, 6)
+	var wg sync.WaitGroup
+	var fatal string
+	for _, pf := range patches {
+		pf := pf
+		name := strings.TrimPrefix(pf, dir+"/")
+		wg.Add(1)
+		sem <- struct{}{}
+		go func() {
+			defer wg.Done()
+			defer func() { <-sem }()
+			defer func() {
+				if e := recover(); e != nil {
+					mu.Lock()
+					fatal = fmt.Sprint(e)
+					mu.Unlock()
+				}
+			}()
+			scratch, err := os.MkdirTemp("", "vsa-selfmut-")
+			if err != nil {
+				undecided("cannot create scratch directory: %v", err)
+			}
+			{
+				defer os.RemoveAll(scratch)
+				repo := filepath.Join(scratch, "repo")
+				if out, err := exec.Command("rsync", "-a", "--exclude=.git", p.Dir+"/", repo+"/").CombinedOutput(); err != nil {
+					undecided("cannot copy the working tree: %v %s", err, out)
+				}
+				ap := exec.Command("git", "apply", "--whitespace=nowarn", pf)
+				ap.Dir = repo
+				if out, err := ap.CombinedOutput(); err != nil {
+					mu.Lock()
+					skipped++
+					results = append(results, name+": skipped (does not apply to the current working tree: "+firstLine(string(out))+")")
+					mu.Unlock()
+					return
+				}
+				vd := filepath.Join(scratch, "verif")
+				os.MkdirAll(filepath.Join(vd, "evidence"), 0o755)
+				os.Symlink(filepath.Join(dir, "sa"), filepath.Join(vd, "sa"))
+				if b, err := os.ReadFile(filepath.Join(dir, "known_findings.json")); err == nil {
+					os.WriteFile(filepath.Join(vd, "known_findings.json"), b, 0o644)
+				}
+				cmd := exec.Command(self, "check", d.id, "--tier", "quick", "--repo", repo)
+				cmd.Env = append(os.Environ(), "VERIF_DIR="+vd, "VSA_NO_SELFMUT=1")
+				out, _ := cmd.CombinedOutput()
+				code := cmd.ProcessState.ExitCode()
+				mu.Lock()
+				defer mu.Unlock()
+				if code == 1 && strings.Contains(string(out), "VIOLATION property="+d.id) {
+					fired++
+					var which []string
+					for _, l := range strings.Split(string(out), "\n") {
+						if strings.Contains(l, "violated: [") {
+							s := strings.TrimSpace(l)
+							if i := strings.Index(s, " at "); i > 0 {
+								s = s[:i]
+							}
+							which = append(which, strings.TrimPrefix(s, "violated: "))
+						}
+					}
+					results = append(results, name+": reported "+strings.Join(which, "; "))
+				} else {
+					results = append(results, fmt.Sprintf("%s: NOT reported (exit %d)", name, code))
+					r.Bad("SELF-MUTATION", name, "-", fmt.Sprintf("the kept change %s breaks the property but the check exits %d without a violation: the rule lost its sensitivity", name, code))
+				}
+			}
+		}()
+	}
+	wg.Wait()
+	if fatal != "" {
+		undecided("self-mutation: %s", fatal)
+	}
+	sort.Strings(results)
+	r.Extra["self_mutation"] = results
+	r.Count("self_mutations_fired", fired)
+	r.Count("self_mutations_skipped", skipped)
+	if len(patches) > 0 && fired > 0 {
+		r.OK("SELF-MUTATION", d.id, "-", fmt.Sprintf("%d of %d kept breaking changes are reported on scratch copies (%d skipped)", fired, len(patches), skipped))
+	}
+}
+
+func firstLine(s string) string {
+	if i := strings.IndexByte(s, '\n'); i >= 0 {
+		return s[:i]
+	}
+	return s
 }
